@@ -2,10 +2,10 @@
 """Regenerates MANIFEST.json from the table below (kept valid at all times)."""
 import json, subprocess
 CLAIMED = {
- "C01": ("model-based lock-step simulation of the real TCP (and RTU) server against model::server; byte-exact reply comparison at every quiescent point; replies while an application thread holds the handler mutex are explored by the shuttle engine",
-         "seeded simulation: real server tasks on simulated network; reference-model oracle (thread interleavings: shuttle schedule exploration)", "4 C01"),
- "C02": ("same runs as C01; instrumented handlers journal every callback, compared with the reference model's expected calls and final point memory; RTU broadcast delivery while an application thread holds a handler mutex is explored by the shuttle engine",
-         "seeded simulation: handler-journal oracle against reference model (thread interleavings: shuttle schedule exploration)", "4 C02"),
+ "C01": ("model-based lock-step simulation of the real TCP (and RTU) server against model::server; byte-exact reply comparison at every quiescent point; replies while an application thread holds the handler mutex are explored by the shuttle engine; end-to-end runs (real client, director-owned relay with stalls and small windows, real server) check every successful read/write against the handlers; established TLS sessions below the session limit keep being served",
+         "seeded simulation: real server tasks on simulated network; reference-model oracle; end-to-end history oracle (thread interleavings: shuttle schedule exploration)", "4 C01"),
+ "C02": ("same runs as C01; instrumented handlers journal every callback, compared with the reference model's expected calls and final point memory; RTU broadcast delivery while an application thread holds a handler mutex is explored by the shuttle engine; end-to-end runs (real client <-> relay with stalls <-> real server): every write a handler executes is one the client application submitted, at most once; RTU edge configurations (one handler object under several unit ids, reply write error then re-open)",
+         "seeded simulation: handler-journal oracle against reference model; end-to-end exactly-once history oracle (thread interleavings: shuttle schedule exploration)", "4 C02"),
  "C03": ("lock-step simulation of the real client task against a recording peer over the boundary lattice: exact MBAP encoding in one frame or rejection with zero bytes on the transport",
          "seeded simulation: recording transport + reference encoder oracle", "4 C03"),
  "C04": ("lock-step simulation: peer answers from the reply mutation grammar; completion compared with model::pdu::decode_reply",
@@ -17,7 +17,7 @@ CLAIMED = {
  "C07": ("seeded adversarial byte streams (grammar-aware garbage) against all four role/transport combinations at random decode levels with log formatting forced, overflow checks and debug assertions on; panic capture around every poll, spin / runaway-poll watchdogs, healthy-session and fresh-connection liveness after the fault, shutdown honoured",
          "seeded simulation with peer-garbage fault injection; panic/spin watchdogs; bounded liveness after faults stop", "4 C07"),
  "C15": ("lock-step simulation of the real TCP server against model::sessions: ordered live set, eviction of the oldest exactly at the limit, isolation, shutdown / handle drop closes everything",
-         "seeded simulation; reference-model oracle over connection histories", "4 C15"),
+         "seeded simulation; reference-model oracle over connection histories (two sessions and an application thread contending for the handler: shuttle schedule exploration)", "4 C15"),
  "C16": ("simulation with arbitrary peer source addresses (impossible over loopback): non-matching peers get zero bytes + EOF, matching peers are served; wildcard parser grammar. Rust API over plain TCP in this round",
          "seeded simulation over filter x source-address lattice; reference filter model", "4 C16"),
  "C08": ("simulation of real TLS sessions with an authorization handler: reply stream and interleaved authorization/point-handler journal equal model::server for seeded policies, roles (fixture certificates) and request sequences",
@@ -66,7 +66,7 @@ man = {
  "hooks": {"guard": "--cfg rodbus_verif_shuttle", "enable": "only the shuttle engine sets it (RUSTFLAGS in /verif/shuttle_engine/.cargo/config.toml): it swaps `use std::sync::{Arc, Mutex}` in rodbus/src/server/handler.rs for shuttle's so that handler-mutex acquisitions are scheduling points. Everything else needs no hook: the seam is dependency substitution via shadow manifests (tokio -> simtokio, tokio-serial -> simserial) and /repo sources are compiled unmodified",
            "baseline_off_cmd": "cd /repo && cargo test --workspace --no-fail-fast --offline", "source_commits": ["ff2eb44"], "add_only": True},
  "engines": [{"name": "miri", "path": "miri_engine.py", "serves_properties": ["C18", "C19"], "kind_free_text": "the seeded simulation runs of the C-ABI scenarios (no TLS) interpreted by Miri (cargo +nightly miri run): any undefined behaviour in rodbus-ffi / rodbus aborts the run with a report; event-log hashes must equal the native engine's"},
-  {"name": "shuttle", "path": "shuttle_engine", "serves_properties": ["C01", "C02", "C17", "C18", "C19"], "kind_free_text": "shuttle (seeded random + PCT schedulers) over two threads: the simulation driver with the real server (C-ABI TCP server for C19, RTU server for C02/C17) and an application thread (database transactions interleaved with client reads and acknowledged client writes / work under a handler mutex); replayable schedule files"},
+  {"name": "shuttle", "path": "shuttle_engine", "serves_properties": ["C01", "C02", "C15", "C17", "C18", "C19"], "kind_free_text": "shuttle (seeded random + PCT schedulers) over two threads: the simulation driver with the real server (C-ABI TCP server for C19, RTU server for C02/C17) and an application thread (database transactions interleaved with client reads and acknowledged client writes / work under a handler mutex); replayable schedule files"},
   {"name": "sim", "path": "sim", "serves_properties": sorted(CLAIMED), "kind_free_text": "deterministic discrete-event simulation of the unmodified rodbus tasks (tokio facade: network, serial, clock, executor, select! start index), seeded choice tape, shrinking, replay"}],
  "checks": checks,
  "not_applicable": [{"property_id": p, "reason": PENDING_REASON} for p in props if p not in CLAIMED],
